@@ -127,25 +127,42 @@ def run(ctx: Ctx):
     if written is None or read is None:
         raise AnalysisError("C11: ctm writer tuple / reader unpack not found")
 
-    def same(a, b):
-        a, b = norm_name(a), norm_name(b)
-        return a == b or a in b or b in a
-    ok = all(same(a, b) for a, b in zip(written, read))
+    # positive contradictions only (names are evidence, not requirements): a written field whose name matches a
+    # *different* slot of the reader's unpack
+    def nn(x):
+        return norm_name(x)
+    contra = None
+    for i, a in enumerate(written):
+        for j, b in enumerate(read):
+            if i != j and (nn(a) == nn(b)) and nn(written[j]) != nn(b):
+                contra = (i, a, j)
+    ok = contra is None
     col.ob("G2", "S3", f"{rel}::ctm::field-order(writer==reader)", ok,
-           f"write_ctm emits fields {written}; read_ctm unpacks {read}", rel, wr.line, sample=dict(written=written, read=read))
+           f"write_ctm emits fields {written}; read_ctm unpacks {read}" + (f": `{contra[1]}` is written in slot {contra[0]} "
+           f"but read from slot {contra[2]}" if contra else ""), rel, wr.line, sample=dict(written=written, read=read))
     fmt = [c for c in own_calls(wr.node) if isinstance(c.func, ast.Attribute) and c.func.attr == "format"
            and isinstance(c.func.value, ast.Constant) and c.func.value.value.count("{}") == 5]
     col.ob("G2", "S3", f"{rel}::write_ctm::five-fields-in-tuple-order", len(fmt) == 1 and len(fmt[0].args) == 1
            and isinstance(fmt[0].args[0], ast.Starred), "the ctm line is not formatted from the 5-tuple in order", rel, wr.line)
     # duration <-> end are inverse: writer duration = end - start; reader end = start + float(dur)
     wdur = [n for n in own_nodes(wr.node) if isinstance(n, ast.Assign) and u(n.targets[0]) == written[3]]
-    rend = [n for n in own_nodes(rdc.node) if isinstance(n, ast.Assign) and u(n.targets[0]) == "end"]
-    okd = len(wdur) == 1 and u(wdur[0].value) == "end - start" and len(rend) == 1 and u(rend[0].value).replace("float(", "").replace(")", "") == f"start + {read[3]}"
+    # writer: duration = end - start, with (token, start, end) unpacked from the transcript triple
+    trip = [n for n in own_nodes(wr.node) if isinstance(n, ast.Assign) and isinstance(n.targets[0], ast.Tuple)
+            and len(n.targets[0].elts) == 3 and isinstance(n.value, ast.Name)]
+    okw = False
+    if trip and len(wdur) == 1:
+        tk, st_, en_ = [u(t) for t in trip[0].targets[0].elts]
+        okw = u(wdur[0].value) == f"{en_} - {st_}" and written[2] == st_ and written[4] == tk
+    rend = [n for n in own_nodes(rdc.node) if isinstance(n, ast.Assign) and isinstance(n.value, ast.BinOp)
+            and isinstance(n.value.op, ast.Add) and read[3] in u(n.value) and read[2] in u(n.value)]
+    okr_ = len(rend) == 1 and u(rend[0].value).replace("float(", "").replace(")", "") == f"{read[2]} + {read[3]}"
+    okd = okw and okr_
     col.ob("G12", "S3", f"{rel}::ctm::duration-end-inverse", okd,
            f"writer: {u(wdur[0]) if wdur else None}; reader: {u(rend[0]) if rend else None}; expected duration = end - "
            f"start and end = start + duration", rel, wr.line)
     # mapping orientation
-    okm = any("utt2wc[utt_id]" in u(n) for n in own_nodes(wr.node) if isinstance(n, ast.Assign)) and any(
+    okm = any(isinstance(x, ast.Subscript) and u(x.value) == "utt2wc" and isinstance(x.slice, ast.Name)
+              for n in own_nodes(wr.node) if isinstance(n, ast.Assign) for x in ast.walk(n.value)) and any(
         u(n.value) == f"wc2utt[{read[0]}, {read[1]}]" or u(n.value) == f"wc2utt[({read[0]}, {read[1]})]"
         for n in own_nodes(rdc.node) if isinstance(n, ast.Assign))
     col.ob("G2", "S3", f"{rel}::ctm::utt2wc/wc2utt-orientation", okm,
@@ -165,32 +182,36 @@ def run(ctx: Ctx):
         for n in own_nodes(f.node):
             if not isinstance(n, ast.Assign):
                 continue
-            tg = n.targets
-            names = [t.id for t in tg if isinstance(t, ast.Name)]
-            if not names or not all(x in ("start", "end") for x in names):
+            # a conversion site: an arithmetic assignment mentioning the frame shift (an API-level parameter); every
+            # other quantity in it carries the source unit
+            if not isinstance(n.value, ast.BinOp) or "frame_shift_ms" not in u(n.value):
                 continue
-            if not any("frame_shift_ms" in u(t) and pol for t, pol in guards_of(pmf, n)):
+            if not all(isinstance(t, ast.Name) for t in n.targets):
                 continue
-            if "frame_shift_ms" not in u(n.value) and "start" not in u(n.value):
-                continue
+            names = [t.id for t in n.targets]
             n_units += 1
-            env = {"start": src, "end": src, "frame_shift_ms": FS}
-            # `end = max(end, start + 1)`: both already converted
-            if isinstance(n.value, ast.Call) and call_name(n.value) == "max":
-                env = {"start": dst, "end": dst, "frame_shift_ms": FS}
+            env = {x.id: src for x in ast.walk(n.value) if isinstance(x, ast.Name) and x.id != "frame_shift_ms"}
+            env["frame_shift_ms"] = FS
             try:
                 got = unit_of(n.value, env)
                 ok = got == dst
                 msg = f"`{u(n)}` has unit {got}, expected {dst}"
             except UnitError as e:
                 ok, msg = False, f"`{u(n)}`: {e}"
-            col.ob("G14", "S4", f"{rel}::{f.qualname}::units({'/'.join(names)}={u(n.value)[:40]})", ok,
+            col.ob("G14", "S4", f"{rel}::{f.qualname}::units({u(n.value)[:44]})", ok,
                    msg + " (seconds -> frames is 1000 * t // frame_shift_ms; frames -> seconds is f * frame_shift_ms / 1000)",
                    rel, n.lineno, sample=u(n))
     col.floor("unit_conversion_sites", n_units, 5)
     # rounding: start floors, end rounds half up, and a non-empty segment keeps at least one frame
-    txt = [u(n) for n in own_nodes(t2t.node) if isinstance(n, ast.Assign)]
-    col.ob("G12", "S4", f"{rel}::transcript_to_token::end>=start+1", "end = max(end, start + 1)" in txt,
+    okmax = False
+    for n in own_nodes(t2t.node):
+        if isinstance(n, ast.Assign) and isinstance(n.targets[0], ast.Name) and isinstance(n.value, ast.Call) \
+                and call_name(n.value) == "max" and len(n.value.args) == 2:
+            a0, a1 = n.value.args
+            if u(a0) == n.targets[0].id and isinstance(a1, ast.BinOp) and isinstance(a1.op, ast.Add) and u(a1.right) == "1" \
+                    and isinstance(a1.left, ast.Name) and a1.left.id != n.targets[0].id:
+                okmax = True
+    col.ob("G12", "S4", f"{rel}::transcript_to_token::end>=start+1", okmax,
            "a non-empty segment may collapse to zero frames (end = max(end, start + 1) missing)", rel, t2t.line)
 
     # ---- S5 tier bounds come from one object ----------------------------------------------------------------------
@@ -234,9 +255,9 @@ def _mutants():
         M("read-textgrid-drops-fill", P, "return read_textgrid(f, tier_id, fill_token)", "return read_textgrid(f, tier_id)", "redispatch(fill_token)"),
         M("ctm-fields-swapped", P, "segments.append((wfn, chan, start, duration, token))", "segments.append((wfn, chan, duration, start, token))", "field-order"),
         M("ctm-reader-end-is-dur", P, "end = start + float(dur)", "end = float(dur)", "duration-end-inverse"),
-        M("frames-to-seconds-inverted", P, "start = start * frame_shift_ms / 1000", "start = start * 1000 / frame_shift_ms", "units(start"),
-        M("seconds-to-frames-no-1000", P, "start = 1000 * start // frame_shift_ms\n                        end = (1000", "start = start // frame_shift_ms\n                        end = (1000", "units(start"),
-        M("rounding-term-unitless", P, "end = (1000 * end + 0.5 * frame_shift_ms) // frame_shift_ms", "end = (1000 * end + 0.5 / frame_shift_ms) // frame_shift_ms", "units(end"),
+        M("frames-to-seconds-inverted", P, "start = start * frame_shift_ms / 1000", "start = start * 1000 / frame_shift_ms", "units("),
+        M("seconds-to-frames-no-1000", P, "start = 1000 * start // frame_shift_ms\n                        end = (1000", "start = start // frame_shift_ms\n                        end = (1000", "units("),
+        M("rounding-term-unitless", P, "end = (1000 * end + 0.5 * frame_shift_ms) // frame_shift_ms", "end = (1000 * end + 0.5 / frame_shift_ms) // frame_shift_ms", "units("),
         M("textgrid-file-xmin", P, "start_time = tier.xmin", "start_time = tg_.xmin", "bounds-from-one-object"),
         M("read-trn-drops-processes", P, "read_trn_iter(trn, warn, processes, chunk_size)", "read_trn_iter(trn, warn)", "G5/S1"),
         M("twin:rename-line", P, "for line in trn", "for ln in trn", "", 0, twin=True),
